@@ -1,6 +1,7 @@
 package checks
 
 import (
+	v1 "github.com/DataDog/extendeddaemonset/api/v1alpha1"
 	"strings"
 	"testing"
 
@@ -38,6 +39,13 @@ func TestC14(t *testing.T) {
 	overtakenCanary := corpusS3([]string{"n1", "n2"}, "1", "auto", 1, &w.Alpha{MidCmds: []string{"canary-pause", "canary-validate"}})
 	overtakenCanary.name = "S3-commands-overtake-reconciles"
 	scs = append(scs, overtaken, overtakenCanary)
+	// a canary spread over a node label whose second value only has a tainted node (the selection fills up from the first
+	// value): whatever the list looks like, the counters must describe the pods that exist
+	s3z := corpusS3([]string{"n1:zone=a", "n2:zone=a", "n3:zone=b"}, "2", "manual", 1, &w.Alpha{Kubectl: []string{"canary-validate"}, PodDev: []string{"unready"}})
+	s3z.name = "S3-canary-2-anti-affinity-second-zone-tainted"
+	s3z.eds = append(s3z.eds, func(e *v1.ExtendedDaemonSet) { e.Spec.Strategy.Canary.NodeAntiAffinityKeys = []string{"zone"} })
+	s3z.first = []w.Event{evb("taint", "n3", "NoSchedule"), evb("setTemplate", edsKey, "B")}
+	scs = append(scs, s3z)
 	type sample struct {
 		sc *w.Scenario
 		s  *w.State
@@ -66,8 +74,21 @@ func TestC14(t *testing.T) {
 			run.Violate(h.Violation{Signature: sig, Monitor: "C14/quiescent", Message: msg, Replay: map[string]interface{}{"scenario": sm.sc.Name, "start_state": sm.s.Describe(), "final_state": r.Final.Describe(), "path": path}})
 		}
 		run.Count("antecedent:C14/quiescent", 1)
+		// a canary in manual validation mode is quiescent for as long as nobody validates it: the same clause holds there
+		if e := sm.s.EDS("ns", "foo"); e != nil && e.Status.Canary != nil && e.Spec.Strategy.Canary != nil && e.Spec.Strategy.Canary.ValidationMode == v1.ExtendedDaemonSetSpecStrategyCanaryValidationModeManual {
+			r2 := w.Closure(t, sm.sc, sm.s, w.ClosureOpts{SkipJumps: true})
+			run.Count("closures", 1)
+			if r2.Converged {
+				if e2 := r2.Final.EDS("ns", "foo"); e2 != nil && e2.Status.Canary != nil {
+					run.Count("antecedent:C14/quiescent-canary", 1)
+					if sig, msg := w.CheckQuiescentStatus(r2.Final, "ns", "foo"); sig != "" {
+						run.Violate(h.Violation{Signature: sig + " (canary waiting for its validation)", Monitor: "C14/quiescent", Message: msg, Replay: map[string]interface{}{"scenario": sm.sc.Name, "start_state": sm.s.Describe(), "final_state": r2.Final.Describe()}})
+					}
+				}
+			}
+		}
 	})
-	requireAntecedents(run, "C14/quiescent")
+	requireAntecedents(run, "C14/quiescent", "C14/quiescent-canary")
 	run.Cov["evaluations"] = run.Counter("transitions") + run.Counter("lattice_reconciles") + run.Counter("closures")
 	exit(run.Finish("status-function lattice: one real R_eds on every combination of canary strategy x recorded active replica set {A, B, empty, vanished} x third replica set x status tuples of up to three replica sets x Canary-Paused / Canary-Failed conditions x canary-paused / rolling-update-paused / rollout-frozen / canary-valid annotations x previous status.canary x duration elapsed, judged by the reference status function; BFS of S1/S2/S3 with pod/node/annotation deviations: replica-set counter ordering after every full sync, ExtendedDaemonSet status against the reference status function after every R_eds, and the quiescent-state clause at the closure fixpoint of sampled reachable states; non-trivial = scenarios"))
 }
